@@ -522,3 +522,161 @@ Section NumberFilterSel.
         * intros _. split; auto.
   Qed.
 End NumberFilterSel.
+
+(* ------------------------------------------------------------------ *)
+(* host and flag relations                                            *)
+(* ------------------------------------------------------------------ *)
+Section SingleRemove.
+  Variable dom : list nat.
+  Variable sq : nat.
+  Hypothesis Hsq : In sq dom.
+  Variable good : nat -> bool.               (* does result position p of the sub-query satisfy the relation *)
+
+  Theorem single_remove_exact : forall forb sel,
+    sel_wf dom sel ->
+    (forall c, sel_allows dom c sel -> (In (c sq) forb <-> good (c sq) = false)) ->
+    let r := single_remove sq forb sel in
+    (snd r = true <-> exists c, sel_allows dom c sel /\ good (c sq) = true) /\
+    sel_wf dom (fst r) /\
+    (forall c, sel_allows dom c (fst r) <-> sel_allows dom c sel /\ good (c sq) = true).
+  Proof.
+    intros forb sel Hwf Hforb. unfold single_remove. simpl.
+    assert (Hd : forall k, In k [sq] -> In k dom) by (intros k [<-|[]]; auto).
+    assert (Hspec : forall c, sel_allows dom c (sel_remove [sq] [forb] sel) <-> sel_allows dom c sel /\ good (c sq) = true).
+    { intros c. rewrite (@sel_remove_spec dom c [sq] [forb] sel Hd eq_refl). split.
+      - intros [HA HN]. split; auto. destruct (good (c sq)) eqn:E; auto. exfalso. apply HN.
+        constructor; [apply Hforb; auto | constructor].
+      - intros [HA HG]. split; auto. intros HF. inversion HF; subst.
+        apply (Hforb c HA) in H2. congruence. }
+    assert (Hwf' : sel_wf dom (sel_remove [sq] [forb] sel)) by (apply sel_remove_wf; auto).
+    split; [|split; auto].
+    rewrite negb_true_iff, (sel_nonempty_allows Hwf'). split.
+    - intros (c & HA). exists c. apply Hspec. auto.
+    - intros (c & HA). exists c. apply Hspec. auto.
+  Qed.
+End SingleRemove.
+
+(* positions a selection allows for [sq] exist among the [len] results of that sub-query *)
+Definition sq_in_range (sq len : nat) (sel : subsel) : Prop :=
+  forall m p, In m sel -> In p (m sq) -> (p < len)%nat.
+
+Lemma allows_lt : forall dom sq len sel c, In sq dom -> sq_in_range sq len sel -> sel_allows dom c sel -> (c sq < len)%nat.
+Proof. intros dom sq len sel c Hsq HR (m & Hm & Hin). eapply HR; eauto. Qed.
+
+(* ---- host ---- *)
+(* the relation: same size and equal under the mask; negated for an inverted condition *)
+Definition host_eq (myh mask other : list N) : bool :=
+  Nat.eqb (length myh) (length other) && negb (bytes_differ myh other mask).
+Definition host_cond (invert : bool) (myh mask other : list N) : bool := xorb invert (host_eq myh mask other).
+
+Lemma host_forbidden_cond : forall invert myh mask other,
+  host_forbidden invert myh mask other = negb (host_cond invert myh mask other).
+Proof.
+  intros. unfold host_forbidden, host_cond, host_eq.
+  destruct (Nat.eqb (length myh) (length other)), (bytes_differ myh other mask), invert; reflexivity.
+Qed.
+
+Lemma bytes_differ_zero_mask : forall a b m, forallb (N.eqb 0) m = true -> bytes_differ a b m = false.
+Proof.
+  intros a b m Hm. unfold bytes_differ.
+  destruct (existsb _ (combine (combine a b) m)) eqn:E; auto.
+  apply existsb_exists in E. destruct E as ([[x y] z] & Hin & Hne). simpl in Hne.
+  apply in_combine_r in Hin. rewrite forallb_forall in Hm. specialize (Hm _ Hin).
+  apply N.eqb_eq in Hm. subst z. rewrite N.land_0_r in Hne. discriminate.
+Qed.
+
+Definition ip_size (h : list N) : Prop := length h = 4%nat \/ length h = 16%nat.
+
+Lemma ipclass_same : forall a b, ip_size a -> ip_size b ->
+  Nat.eqb (ipclass a) (ipclass b) = Nat.eqb (length a) (length b).
+Proof.
+  intros a b [Ha|Ha] [Hb|Hb]; unfold ipclass; rewrite Ha, Hb; reflexivity.
+Qed.
+
+Theorem host_filter_exact : forall dom sq invert masks_zero myh mask others sel,
+  In sq dom -> sel_wf dom sel -> sq_in_range sq (length others) sel ->
+  (masks_zero = true -> forallb (N.eqb 0) mask = true /\ ip_size myh /\ Forall ip_size others) ->
+  let r := host_filter invert masks_zero myh mask sq others sel in
+  (snd r = true <-> exists c, sel_allows dom c sel /\ host_cond invert myh mask (nth (c sq) others []) = true) /\
+  sel_wf dom (fst r) /\
+  (forall c, sel_allows dom c (fst r) <->
+             sel_allows dom c sel /\ host_cond invert myh mask (nth (c sq) others []) = true).
+Proof.
+  intros dom sq invert masks_zero myh mask others sel Hsq Hwf HR Hz. unfold host_filter.
+  apply (@single_remove_exact dom sq Hsq (fun p => host_cond invert myh mask (nth p others []))); auto.
+  intros c HA. pose proof (allows_lt dom sq _ sel c Hsq HR HA) as Hlt.
+  destruct masks_zero.
+  - destruct (Hz eq_refl) as (Hm & Hmy & Hot).
+    rewrite filter_In, in_seq.
+    assert (Hsz : ip_size (nth (c sq) others [])) by (rewrite Forall_forall in Hot; apply Hot; apply nth_In; auto).
+    rewrite (ipclass_same _ _ Hsz Hmy).
+    unfold host_cond, host_eq. rewrite (bytes_differ_zero_mask _ _ _ Hm). simpl. rewrite andb_true_r.
+    rewrite (Nat.eqb_sym (length myh)).
+    destruct (Nat.eqb (length (nth (c sq) others [])) (length myh)), invert; simpl; split; intros; try tauto;
+      try discriminate; try (split; [lia | reflexivity]); destruct H; discriminate.
+  - rewrite filter_In, in_seq, host_forbidden_cond. rewrite negb_true_iff. split; [tauto|]. intros; split; [lia | auto].
+Qed.
+
+(* ---- flags ---- *)
+Lemma lxor_swap : forall a b c : N, N.lxor a b = c <-> N.lxor c b = a.
+Proof.
+  intros a b c. split; intros <-; rewrite N.lxor_assoc, N.lxor_nilpotent, N.lxor_0_r; reflexivity.
+Qed.
+
+Lemma sorted_key_unique : forall d k r1 r2, StronglySorted vlt d -> In (k, r1) d -> In (k, r2) d -> r1 = r2.
+Proof.
+  induction d as [|x d IH]; intros k r1 r2 HS H1 H2; [contradiction|].
+  inversion HS as [|? ? HS' HF]; subst. rewrite Forall_forall in HF.
+  destruct H1 as [->|H1], H2 as [E|H2].
+  - inversion E; auto.
+  - specialize (HF _ H2). unfold vlt in HF. simpl in HF. lia.
+  - subst x. specialize (HF _ H1). unfold vlt in HF. simpl in HF. lia.
+  - eapply IH; eauto.
+Qed.
+
+Theorem flag_filter_exact : forall dom sq own value flags sel,
+  In sq dom -> sel_wf dom sel -> sel <> [] -> sq_in_range sq (length flags) sel ->
+  let good := fun p => negb (N.eqb (N.lxor own (nth p flags 0%N)) value) in
+  let r := flag_filter own value sq flags sel in
+  (snd r = true <-> exists c, sel_allows dom c sel /\ good (c sq) = true) /\
+  (snd r = true -> sel_wf dom (fst r) /\
+     forall c, sel_allows dom c (fst r) <-> sel_allows dom c sel /\ good (c sq) = true).
+Proof.
+  intros dom sq own value flags sel Hsq Hwf Hne HR good. unfold flag_filter.
+  set (keys := map (fun f => Z.of_N (N.lxor value f)) flags).
+  destruct (group_values_ok keys) as [HS HA HO].
+  assert (Hkey : forall p, (p < length flags)%nat ->
+            nth_error keys p = Some (Z.of_N (N.lxor value (nth p flags 0%N)))).
+  { intros p Hp. unfold keys. rewrite nth_error_map. rewrite (nth_error_nth' flags 0%N Hp). reflexivity. }
+  assert (Hbad : forall p, good p = false <-> Z.of_N (N.lxor value (nth p flags 0%N)) = Z.of_N own).
+  { intros p. unfold good. rewrite negb_false_iff, N.eqb_eq, N2Z.inj_iff.
+    rewrite (lxor_swap value (nth p flags 0%N) own). rewrite (N.lxor_comm own). split; auto. }
+  assert (Hex : exists c, sel_allows dom c sel).
+  { apply (sel_nonempty_allows Hwf). destruct sel; [congruence | auto]. }
+  destruct (find (fun e => Z.eqb (fst e) (Z.of_N own)) (group_values keys)) as [[k forb]|] eqn:Ef.
+  - apply find_some in Ef. destruct Ef as [Hin Hk]. simpl in Hk. apply Z.eqb_eq in Hk. subst k.
+    assert (Hforb : forall c, sel_allows dom c sel -> (In (c sq) forb <-> good (c sq) = false)).
+    { intros c HAl. pose proof (allows_lt dom sq _ sel c Hsq HR HAl) as Hlt. rewrite Hbad. split.
+      - intros Hp. specialize (HO _ _ _ Hin Hp). rewrite (Hkey _ Hlt) in HO. inversion HO; auto.
+      - intros E. destruct (HA (c sq) (Z.of_N own)) as (r' & Hin' & Hp); [rewrite (Hkey _ Hlt), E; auto|].
+        rewrite (sorted_key_unique _ _ _ _ HS Hin Hin'). auto. }
+    destruct (Nat.eqb_spec (length (group_values keys)) 1) as [Hone|Hmore]; simpl.
+    + (* every result has the forbidden flag *)
+      split; [|discriminate]. split; [discriminate|]. intros (c & HAl & Hg). exfalso.
+      pose proof (allows_lt dom sq _ sel c Hsq HR HAl) as Hlt.
+      destruct (HA _ _ (Hkey _ Hlt)) as (r' & Hin' & Hp).
+      destruct (group_values keys) as [|e [|e2 t]]; simpl in Hone; try discriminate.
+      destruct Hin as [->|[]]. destruct Hin' as [E|[]]. inversion E as [[E1 E2]].
+      assert (good (c sq) = false) by (apply Hbad; auto). congruence.
+    + destruct (@single_remove_exact dom sq Hsq good forb sel Hwf Hforb) as (H1 & H2 & H3).
+      split; auto.
+  - (* no result has the forbidden flag *)
+    simpl. assert (Hall : forall c, sel_allows dom c sel -> good (c sq) = true).
+    { intros c HAl. pose proof (allows_lt dom sq _ sel c Hsq HR HAl) as Hlt.
+      destruct (good (c sq)) eqn:E; auto. exfalso. apply Hbad in E.
+      destruct (HA _ _ (Hkey _ Hlt)) as (r' & Hin' & _).
+      pose proof (find_none _ _ Ef _ Hin') as Hn. simpl in Hn. rewrite E, Z.eqb_refl in Hn. discriminate. }
+    split.
+    + split; auto. intros _. destruct Hex as (c & HAl). exists c. split; auto.
+    + intros _. split; auto. intros c. split; [intros HAl; split; auto | tauto].
+Qed.
